@@ -565,6 +565,9 @@ typedef double* double_ptr; typedef char* char_ptr; typedef char_ptr* char_ptr_p
 /* members of splinetable<Alloc> (R1) */
 uint32_t ndim; uint32_t* order; double** knots; uint64_t* nknots; double** extents; double* periods; float* coefficients; uint64_t* naxes; uint64_t* strides; uint32_t naux; char_ptr_ptr_ptr aux;
 uint64_t** const vp_this_naxes_p = &naxes;   /* `this->naxes` where a local of the same name shadows the member (R14) */
+/* the members of the OTHER object of a move (R36) */
+uint32_t vp_other_ndim; uint32_t* vp_other_order; double** vp_other_knots; uint64_t* vp_other_nknots; double** vp_other_extents; double* vp_other_periods; float* vp_other_coefficients; uint64_t* vp_other_naxes; uint64_t* vp_other_strides; uint32_t vp_other_naux; char_ptr_ptr_ptr vp_other_aux;
+bool vp_other_is_this; void vp_swap(void* a, void* b); void vp_swap_allocators(void);
 int vp_thrown;                               /* ghost: an exception has been thrown (R7) */
 bool vp_guard_armed;                         /* the `armed` member of a local scope guard (R28) */
 void release(void); bool read_fits_core_body(fitsfile* fits); int vp_isfinite(double);
@@ -731,6 +734,38 @@ def fits_functions():
         _no_cxx_left("release", body)
         out["release"] = Extracted("release", "void release(void)", body, r2, SPLINETABLE_H, X.find_loops(body))
     elif re.search(r"(?<![A-Za-z0-9_])release\(", out["destructor"].body): raise ExtractionError("~splinetable calls release() but its definition was not found")
+    # --- move constructor and move assignment (R36): the other object's members are a second set of variables vp_other_<member>
+    MEMBERS = ("ndim", "order", "knots", "nknots", "extents", "periods", "coefficients", "naxes", "strides", "naux", "aux")
+    blank = X.blank_comments_and_strings(st)
+    m = re.search(r"(?<![A-Za-z0-9_~])splinetable\(splinetable&&\s*other\)\s*:", blank)
+    if m:
+        b0 = blank.index("{", m.end()); b1 = X.match_close(blank, b0, "{", "}")
+        init = X.strip_comments(st[m.end():b0]); body = X.strip_comments(st[b0:b1 + 1]); r3 = X.Rules(); r3.counts["R1_member"] = 1
+        assigns = []
+        for mm in re.finditer(r"(\w+)\(((?:[^()]|\([^()]*\))*)\)\s*(?:,|$)", init.strip()):
+            name, expr = mm.group(1), mm.group(2).strip()
+            expr = re.sub(r"std::move\((other\.\w+)\)", r"\1", expr)
+            if name == "allocator": r3.counts["R36_allocator_member"] = 1; continue          # the allocator travels with the storage: modelled by the check (ownership of the live blocks moves along)
+            if name not in MEMBERS: raise ExtractionError("move constructor initialises an unknown member %s" % name)
+            assigns.append("%s = %s;" % (name, expr))
+        if sorted(a.split(" =")[0] for a in assigns) != sorted(MEMBERS): raise ExtractionError("move constructor does not initialise every member: %s" % assigns)
+        body = r3.sub("R36_allocator_member", r"other\.allocator\s*=\s*Alloc\(\);", "", body)
+        text = "{ " + " ".join(assigns) + " " + body[1:]
+        text = r3.sub("R36_other_member", r"(?<![A-Za-z0-9_])other\.(\w+)", r"vp_other_\1", text, must_fire=True)
+        _no_cxx_left("move constructor", text)
+        out["move_construct"] = Extracted("vp_move_construct", "void vp_move_construct(void)", text, r3, SPLINETABLE_H, [])
+    m = re.search(r"splinetable&\s*operator=\(splinetable&&\s*other\)\s*\{", blank)
+    if m:
+        b0 = blank.index("{", m.start()); b1 = X.match_close(blank, b0, "{", "}")
+        body = X.strip_comments(st[b0:b1 + 1]); r4 = X.Rules(); r4.counts["R1_member"] = 1
+        body = r4.sub("R36_self_test", r"if\(&other==this\)\s*return\(\*this\);", "if (vp_other_is_this) return;", body, must_fire=True)
+        body = r4.sub("R36_using", r"using std::swap;", "", body)
+        body = r4.sub("R36_allocator_member", r"swap\(allocator,\s*other\.allocator\);", "vp_swap_allocators();", body, must_fire=True)
+        body = r4.sub("R16_swap", r"(?<![A-Za-z0-9_:])swap\((\w+),\s*other\.(\w+)\);", r"vp_swap(&\1, &vp_other_\2);", body, must_fire=True)
+        body = r4.sub("R36_return_this", r"return\(\*this\);", "return;", body, must_fire=True)
+        body = r4.sub("R36_other_member", r"(?<![A-Za-z0-9_])other\.(\w+)", r"vp_other_\1", body)
+        _no_cxx_left("move assignment", body, extra=("swap(",) if False else ())
+        out["move_assign"] = Extracted("vp_move_assign", "void vp_move_assign(void)", body, r4, SPLINETABLE_H, [])
     # --- writer
     start, header, body, end = X.find_function(s, r"splinetable<Alloc>::write_fits_core\s*\(")
     r = X.Rules(); r.counts["R1_member"] = 1
